@@ -1,6 +1,10 @@
 import PyseqmVerif.Model.Overlap
 import Mathlib.Analysis.SpecialFunctions.Pow.Real
 import Mathlib.Analysis.SpecialFunctions.Sqrt
+import Mathlib.Analysis.SpecialFunctions.Integrals.Basic
+import Mathlib.Analysis.Calculus.Deriv.Pow
+import Mathlib.Analysis.Calculus.Deriv.Mul
+import Mathlib.Analysis.Calculus.Deriv.Add
 import Mathlib.Tactic.Ring
 import Mathlib.Tactic.NormNum
 import Mathlib.Tactic.NormNum.OfScientific
@@ -15,13 +19,24 @@ All theorems are over `ℝ` with `Real.exp`, `Real.sqrt`, `Real.rpow`, `|·|` an
 
 1. auxiliary integrals `A_k`: `aintgs_recurrence` (the integration-by-parts identity
    `x·A_k = e^{-x} + k·A_{k-1}` of `∫₁^∞ ξ^k e^{-xξ} dξ`), `aintgs_closed_form`.
-2. auxiliary integrals `B_k`: `bintgs_recurrence` (regime `|x| > 0.5`:
-   `x·B_k = k·B_{k-1} + ((-1)^k e^{x} − e^{-x})`, the identity of `∫₋₁^¹ η^k e^{-xη} dη`), `bintgs_parity`
-   (`B_k(−x) = (−1)^k B_k(x)`, all three regimes), `bintgs_series_is_truncated_maclaurin`,
-   `bintgs_at_zero`, and the FINDING `bintgs_series_violates_exact_recurrence`: every family obeying
-   the integration-by-parts identities satisfies `x·(B₂ − B₀) = 2·B₁` (`exact_B_relation`; the recursion
-   branch does: `bintgs_recursion_satisfies_relation`), whereas the series branch (`1e-6 < |x| ≤ 0.5`)
-   misses it by exactly `−x⁷/11340 ≠ 0`: the code's `B_k` are truncated Maclaurin polynomials there.
+2. auxiliary integrals `B_k`, TWO regimes (the code after the repair F27: `cond1 = absx > 0.5`,
+   `cond2 = absx <= 0.5`; the former third regime "constants `B_k(0)` for `|x| ≤ 1e-6`" no longer exists):
+   * `|x| > 0.5`: `bintgs_recurrence` (`x·B_k = k·B_{k-1} + ((-1)^k e^{x} − e^{-x})`, the identity of
+     `∫₋₁^¹ η^k e^{-xη} dη`), `bintgs_recursion_satisfies_relation`;
+   * `|x| ≤ 0.5`, `x = 0` INCLUDED: `bintgs_series_branch` (the model is the polynomial table `seriesR`),
+     `bintgs_series_is_truncated_maclaurin` (Maclaurin series cut after `m = 6`), `bintgs_at_zero` (value at
+     `x = 0`: `2/(k+1)` / `0`), `bintgs_at_zero_is_integral` (these are `∫₋₁^¹ η^k e^{-0·η} dη`),
+     `bintgs_near_zero` (`|B_k(x) − B_k(0)| ≤ x²` even columns, `≤ |x|` odd columns);
+   * `bintgs_parity` (`B_k(−x) = (−1)^k B_k(x)`, both regimes);
+   * the FINDING `bintgs_series_violates_exact_recurrence`: every family obeying the integration-by-parts
+     identities satisfies `x·(B₂ − B₀) = 2·B₁` (`exact_B_relation`), whereas the series branch misses it by
+     exactly `−x⁷/11340` (`bintgs_series_relation_defect`, all `|x| ≤ 0.5`), which is `≠ 0` iff `x ≠ 0`
+     (`bintgs_series_relation_iff`; `bintgs_zero_satisfies_relation`): the code's `B_k` are truncated
+     Maclaurin polynomials there;
+   * derivative in `x`: `bintgs_series_hasDerivAt` (`|x₀| < 0.5`), `bintgs_odd_slope_at_zero` (REPAIRED F27:
+     `b2, b4, b6` have slope `−2/3, −2/5, −2/7` at `0`, even columns slope `0`), and about the code BEFORE the
+     repair (`bintgsOld`): `bintgsOld_eq_outside_window`, `bintgsOld_zero`, `old_branch_dropped_slope` (the
+     removed constant branch has derivative `0 ≠ −2/(k+2)` at `0`).
 3. equal exponents: the `jcall = 2, 4, 6` branches reproduce closed forms obtained independently:
    `overlap_1s1s_equal_zeta`, `overlap_22_equal_zeta`, `overlap_33_equal_zeta` (all five entries each).
 4. SPECIFICATION `stoSpec`: normalisation constants × angular constant × `(R/2)^{n₁+n₂+1}` × the
@@ -100,30 +115,104 @@ theorem bintgs_recurrence {x : ℝ} (hx : 0.5 < |x|) :
   norm_num
   refine ⟨?_, ?_, ?_, ?_, ?_, ?_, ?_⟩ <;> field_simp <;> ring
 
-/-- the values used for `|x| ≤ 1e-6` are the integrals at `x = 0`: `∫₋₁^¹ η^k dη` -/
-theorem bintgs_at_zero {x : ℝ} (hx : |x| ≤ 1.0e-6) :
-    (BR x).c0 = 2 ∧ (BR x).c1 = 0 ∧ (BR x).c2 = 2 / 3 ∧ (BR x).c3 = 0 ∧ (BR x).c4 = 2 / 5 ∧
-    (BR x).c5 = 0 ∧ (BR x).c6 = 2 / 7 := by
-  have h1 : ¬ (0.5 < |x|) := by
-    intro h; norm_num at hx h; linarith
-  have h2 : ¬ (1.0e-6 < |x|) := not_lt.mpr hx
-  simp only [BR, bintgs, absR, if_neg h1, if_neg h2]
+/-- the seven polynomials of the branch `|x| ≤ 0.5` (`cond2`), written over `ℝ` -/
+def seriesR (x : ℝ) : Aux ℝ :=
+  ⟨2 + x ^ 2 / 3 + x ^ 4 / 60 + x ^ 6 / 2520,
+   -2 / 3 * x - x ^ 3 / 15 - x ^ 5 / 420,
+   2 / 3 + x ^ 2 / 5 + x ^ 4 / 84 + x ^ 6 / 3240,
+   -2 / 5 * x - x ^ 3 / 21 - x ^ 5 / 540,
+   2 / 5 + x ^ 2 / 7 + x ^ 4 / 108 + x ^ 6 / 3960,
+   -2 / 7 * x - x ^ 3 / 27 - x ^ 5 / 660,
+   2 / 7 + x ^ 2 / 9 + x ^ 4 / 132 + x ^ 6 / 4680⟩
+
+/-- regime `|x| ≤ 0.5` (all of it, `x = 0` included): the model IS the polynomial table `seriesR` -/
+theorem bintgs_series_branch {x : ℝ} (h : |x| ≤ 0.5) : BR x = seriesR x := by
+  have h0 : ¬ (0.5 < |x|) := not_lt.mpr h
+  simp only [BR, bintgs, absR, pwR, if_neg h0, seriesR]
   norm_num
 
-/-- regime `1e-6 < |x| ≤ 0.5`: the Maclaurin series
+/-- the value at `x = 0` (now computed by the series): exactly `∫₋₁^¹ η^k dη`, i.e. `2/(k+1)` for even
+    `k` and `0` for odd `k` -/
+theorem bintgs_at_zero :
+    (BR 0).c0 = 2 ∧ (BR 0).c1 = 0 ∧ (BR 0).c2 = 2 / 3 ∧ (BR 0).c3 = 0 ∧ (BR 0).c4 = 2 / 5 ∧
+    (BR 0).c5 = 0 ∧ (BR 0).c6 = 2 / 7 := by
+  rw [bintgs_series_branch (by norm_num)]
+  simp only [seriesR]
+  norm_num
+
+/-- … and these ARE the defining integrals `B_k(0) = ∫₋₁^¹ η^k e^{-0·η} dη` -/
+theorem bintgs_at_zero_is_integral :
+    (∫ η in (-1:ℝ)..1, η ^ 0 * Real.exp (-(0:ℝ) * η)) = (BR 0).c0 ∧
+    (∫ η in (-1:ℝ)..1, η ^ 1 * Real.exp (-(0:ℝ) * η)) = (BR 0).c1 ∧
+    (∫ η in (-1:ℝ)..1, η ^ 2 * Real.exp (-(0:ℝ) * η)) = (BR 0).c2 ∧
+    (∫ η in (-1:ℝ)..1, η ^ 3 * Real.exp (-(0:ℝ) * η)) = (BR 0).c3 ∧
+    (∫ η in (-1:ℝ)..1, η ^ 4 * Real.exp (-(0:ℝ) * η)) = (BR 0).c4 ∧
+    (∫ η in (-1:ℝ)..1, η ^ 5 * Real.exp (-(0:ℝ) * η)) = (BR 0).c5 ∧
+    (∫ η in (-1:ℝ)..1, η ^ 6 * Real.exp (-(0:ℝ) * η)) = (BR 0).c6 := by
+  obtain ⟨h0, h1, h2, h3, h4, h5, h6⟩ := bintgs_at_zero
+  rw [h0, h1, h2, h3, h4, h5, h6]
+  simp only [neg_zero, zero_mul, Real.exp_zero, mul_one, integral_pow]
+  norm_num
+
+/-- distance of the series values from the `x = 0` constants (which the removed branch returned for
+    `|x| ≤ 1e-6`): second order in the even columns, FIRST order in the odd ones -/
+theorem bintgs_near_zero {x : ℝ} (h : |x| ≤ 0.5) :
+    |(BR x).c0 - 2| ≤ x ^ 2 ∧ |(BR x).c1| ≤ |x| ∧ |(BR x).c2 - 2 / 3| ≤ x ^ 2 ∧ |(BR x).c3| ≤ |x| ∧
+    |(BR x).c4 - 2 / 5| ≤ x ^ 2 ∧ |(BR x).c5| ≤ |x| ∧ |(BR x).c6 - 2 / 7| ≤ x ^ 2 := by
+  rw [bintgs_series_branch h]
+  have hx2 : x ^ 2 ≤ 1 / 4 := by
+    have := pow_le_pow_left₀ (abs_nonneg x) h 2
+    rw [sq_abs] at this
+    norm_num at this
+    linarith
+  have n2 : 0 ≤ x ^ 2 := sq_nonneg x
+  have n4 : 0 ≤ x ^ 4 := by positivity
+  have n6 : 0 ≤ x ^ 6 := by positivity
+  have h4 : x ^ 4 ≤ x ^ 2 / 4 := by nlinarith
+  have h6 : x ^ 6 ≤ x ^ 2 / 16 := by nlinarith
+  have odd : ∀ a b c : ℝ, 0 ≤ a → 0 < b → 0 < c → a + 1 / (4 * b) + 1 / (16 * c) ≤ 1 →
+      |-a * x - x ^ 3 / b - x ^ 5 / c| ≤ |x| := by
+    intro a b c ha hb hc habc
+    have e : -a * x - x ^ 3 / b - x ^ 5 / c = -(x * (a + x ^ 2 / b + x ^ 4 / c)) := by ring
+    have q0 : 0 ≤ a + x ^ 2 / b + x ^ 4 / c := by positivity
+    rw [e, abs_neg, abs_mul, abs_of_nonneg q0]
+    apply mul_le_of_le_one_right (abs_nonneg x)
+    have t1 : x ^ 2 / b ≤ 1 / (4 * b) := by
+      rw [div_le_div_iff₀ hb (by positivity)]; nlinarith
+    have t2 : x ^ 4 / c ≤ 1 / (16 * c) := by
+      rw [div_le_div_iff₀ hc (by positivity)]; nlinarith
+    linarith
+  simp only [seriesR]
+  refine ⟨?_, ?_, ?_, ?_, ?_, ?_, ?_⟩
+  · rw [abs_le]; constructor <;> linarith
+  · have := odd (2 / 3) 15 420 (by norm_num) (by norm_num) (by norm_num) (by norm_num)
+    convert this using 2; ring
+  · rw [abs_le]; constructor <;> linarith
+  · have := odd (2 / 5) 21 540 (by norm_num) (by norm_num) (by norm_num) (by norm_num)
+    convert this using 2; ring
+  · rw [abs_le]; constructor <;> linarith
+  · have := odd (2 / 7) 27 660 (by norm_num) (by norm_num) (by norm_num) (by norm_num)
+    convert this using 2; ring
+  · rw [abs_le]; constructor <;> linarith
+
+example : |(1.0e-7:ℝ)| ≤ 0.5 := by rw [abs_of_pos (by norm_num)]; norm_num
+
+/-- regime `|x| ≤ 0.5` (no lower cut-off any more): the Maclaurin series
     `B_k(x) = Σ_m (−x)^m/m! · ∫₋₁^¹ η^{m+k} dη = Σ_{m+k even} (−x)^m · 2/(m!(m+k+1))` cut after `m = 6` -/
-theorem bintgs_series_is_truncated_maclaurin {x : ℝ} (h1 : 1.0e-6 < |x|) (h2 : |x| ≤ 0.5) :
+theorem bintgs_series_is_truncated_maclaurin {x : ℝ} (h2 : |x| ≤ 0.5) :
     let T : ℕ → ℝ := fun k => ∑ m ∈ Finset.range 7,
       if (m + k) % 2 = 0 then (-x) ^ m * 2 / ((m.factorial : ℝ) * ((m : ℝ) + (k : ℝ) + 1)) else 0
     (BR x).c0 = T 0 ∧ (BR x).c1 = T 1 ∧ (BR x).c2 = T 2 ∧ (BR x).c3 = T 3 ∧ (BR x).c4 = T 4 ∧
     (BR x).c5 = T 5 ∧ (BR x).c6 = T 6 := by
-  have h0 : ¬ (0.5 < |x|) := not_lt.mpr h2
-  simp only [BR, bintgs, absR, pwR, if_neg h0, if_pos h1, Finset.sum_range_succ, Finset.sum_range_zero,
-    Nat.factorial]
+  rw [bintgs_series_branch h2]
+  simp only [seriesR, Finset.sum_range_succ, Finset.sum_range_zero, Nat.factorial]
   norm_num
   refine ⟨?_, ?_, ?_, ?_, ?_, ?_, ?_⟩ <;> ring
 
-/-- `B_k(−x) = (−1)^k B_k(x)` in all three regimes (the regime only depends on `|x|`) -/
+example : |(0:ℝ)| ≤ 0.5 ∧ |(0.3:ℝ)| ≤ 0.5 := by
+  rw [abs_zero, abs_of_pos (by norm_num)]; norm_num
+
+/-- `B_k(−x) = (−1)^k B_k(x)` in both regimes (the regime only depends on `|x|`) -/
 theorem bintgs_parity (x : ℝ) :
     (BR (-x)).c0 = (BR x).c0 ∧ (BR (-x)).c1 = -(BR x).c1 ∧ (BR (-x)).c2 = (BR x).c2 ∧
     (BR (-x)).c3 = -(BR x).c3 ∧ (BR (-x)).c4 = (BR x).c4 ∧ (BR (-x)).c5 = -(BR x).c5 ∧
@@ -134,12 +223,11 @@ theorem bintgs_parity (x : ℝ) :
     simp only [BR, bintgs, absR, abs_neg, if_pos h0, neg_neg]
     norm_num
     refine ⟨?_, ?_, ?_, ?_, ?_, ?_, ?_⟩ <;> field_simp <;> ring
-  · by_cases h1 : 1.0e-6 < |x|
-    · simp only [BR, bintgs, absR, pwR, abs_neg, if_neg h0, if_pos h1]
-      norm_num
-      refine ⟨?_, ?_, ?_, ?_, ?_, ?_, ?_⟩ <;> ring
-    · simp only [BR, bintgs, absR, abs_neg, if_neg h0, if_neg h1]
-      norm_num
+  · have h1 : |x| ≤ 0.5 := not_lt.mp h0
+    have h2 : |-x| ≤ 0.5 := by rwa [abs_neg]
+    rw [bintgs_series_branch h1, bintgs_series_branch h2]
+    simp only [seriesR]
+    refine ⟨?_, ?_, ?_, ?_, ?_, ?_, ?_⟩ <;> ring
 
 /-- Any family obeying the integration-by-parts identities of `∫₋₁^¹ η^k e^{-xη} dη` (k = 1, 2)
     satisfies `x·(B₂ − B₀) = 2·B₁` (the exponentials cancel). -/
@@ -152,36 +240,164 @@ theorem bintgs_recursion_satisfies_relation {x : ℝ} (hx : 0.5 < |x|) :
   obtain ⟨h0, _, h2, _⟩ := bintgs_recurrence hx
   exact exact_B_relation h0 h2
 
-/-- … and so do the `x = 0` values at `x = 0` … -/
+/-- … and so does the series at `x = 0` (where it is exact) … -/
 theorem bintgs_zero_satisfies_relation : (0:ℝ) * ((BR 0).c2 - (BR 0).c0) = 2 * (BR 0).c1 := by
-  obtain ⟨_, h1, _⟩ := bintgs_at_zero (x := 0) (by norm_num)
+  obtain ⟨_, h1, _⟩ := bintgs_at_zero
   rw [h1]; ring
 
-/-- FINDING (accuracy): … but the series branch `1e-6 < |x| ≤ 0.5` does NOT: it misses the exact
-    relation by `−x⁷/11340`, i.e. the `B_k` the code uses there are not the integrals but their
-    Maclaurin polynomials cut after `x⁶` (relative error up to `~1e-8` at `|x| = 0.5`, which limits
-    the overlaps to `~1e-7`; measured against the quadrature oracle in `vf/oracle_nddo.py`). -/
-theorem bintgs_series_violates_exact_recurrence {x : ℝ} (h1 : 1.0e-6 < |x|) (h2 : |x| ≤ 0.5) :
+/-- the defect of the series branch, for every `|x| ≤ 0.5` -/
+theorem bintgs_series_relation_defect {x : ℝ} (h2 : |x| ≤ 0.5) :
+    x * ((BR x).c2 - (BR x).c0) - 2 * (BR x).c1 = -x ^ 7 / 11340 := by
+  rw [bintgs_series_branch h2]
+  simp only [seriesR]
+  ring
+
+/-- FINDING (accuracy): … but the series branch does NOT for any `x ≠ 0` with `|x| ≤ 0.5` (the exact
+    hypothesis, see `bintgs_series_relation_iff`): it misses the exact relation by `−x⁷/11340`, i.e. the
+    `B_k` the code uses there are not the integrals but their Maclaurin polynomials cut after `x⁶`
+    (relative error up to `~1e-8` at `|x| = 0.5`, which limits the overlaps to `~1e-7`; measured against
+    the quadrature oracle in `vf/oracle_nddo.py`). -/
+theorem bintgs_series_violates_exact_recurrence {x : ℝ} (hx0 : x ≠ 0) (h2 : |x| ≤ 0.5) :
     x * ((BR x).c2 - (BR x).c0) - 2 * (BR x).c1 = -x ^ 7 / 11340 ∧
     x * ((BR x).c2 - (BR x).c0) ≠ 2 * (BR x).c1 := by
-  have h0 : ¬ (0.5 < |x|) := not_lt.mpr h2
-  have hx0 : x ≠ 0 := by
-    intro h; rw [h, abs_zero] at h1; norm_num at h1
-  have key : x * ((BR x).c2 - (BR x).c0) - 2 * (BR x).c1 = -x ^ 7 / 11340 := by
-    simp only [BR, bintgs, absR, pwR, if_neg h0, if_pos h1]
-    norm_num
-    ring
+  have key := bintgs_series_relation_defect h2
   refine ⟨key, fun h => ?_⟩
   rw [h, sub_self] at key
   have : x ^ 7 = 0 := by linarith
   exact hx0 (pow_eq_zero_iff (by norm_num) |>.mp this)
 
-example : (1.0e-6 : ℝ) < |(0.3:ℝ)| ∧ |(0.3:ℝ)| ≤ 0.5 := by
-  rw [abs_of_pos (by norm_num)]; norm_num
+/-- the hypothesis `x ≠ 0` is exact: inside `|x| ≤ 0.5` the relation holds ONLY at `x = 0` -/
+theorem bintgs_series_relation_iff {x : ℝ} (h2 : |x| ≤ 0.5) :
+    x * ((BR x).c2 - (BR x).c0) = 2 * (BR x).c1 ↔ x = 0 := by
+  constructor
+  · intro h
+    by_contra hx0
+    exact (bintgs_series_violates_exact_recurrence hx0 h2).2 h
+  · rintro rfl
+    exact bintgs_zero_satisfies_relation
+
+example : (0.3:ℝ) ≠ 0 ∧ |(0.3:ℝ)| ≤ 0.5 ∧ (1.0e-7:ℝ) ≠ 0 ∧ |(1.0e-7:ℝ)| ≤ 0.5 := by
+  rw [abs_of_pos (by norm_num), abs_of_pos (by norm_num)]; norm_num
+
+section slope
+open Filter Topology
+
+/-! ### derivative with respect to `x` (what autograd differentiates: `beta = 0.5·R·(ζ₁−ζ₂)` depends on `R`) -/
+
+lemma hasDerivAt_oddPoly (a b c x : ℝ) :
+    HasDerivAt (fun x : ℝ => a * x - x ^ 3 / b - x ^ 5 / c) (a - 3 * x ^ 2 / b - 5 * x ^ 4 / c) x := by
+  have h : HasDerivAt (fun x : ℝ => a * x - x ^ 3 / b - x ^ 5 / c)
+      (a * 1 - ((3:ℕ):ℝ) * x ^ (3 - 1) / b - ((5:ℕ):ℝ) * x ^ (5 - 1) / c) x :=
+    (((hasDerivAt_id' x).const_mul a).sub ((hasDerivAt_pow 3 x).div_const b)).sub
+      ((hasDerivAt_pow 5 x).div_const c)
+  exact h.congr_deriv (by norm_num)
+
+lemma hasDerivAt_evenPoly (a b c d x : ℝ) :
+    HasDerivAt (fun x : ℝ => a + x ^ 2 / b + x ^ 4 / c + x ^ 6 / d)
+      (2 * x / b + 4 * x ^ 3 / c + 6 * x ^ 5 / d) x := by
+  have h : HasDerivAt (fun x : ℝ => a + x ^ 2 / b + x ^ 4 / c + x ^ 6 / d)
+      (0 + ((2:ℕ):ℝ) * x ^ (2 - 1) / b + ((4:ℕ):ℝ) * x ^ (4 - 1) / c + ((6:ℕ):ℝ) * x ^ (6 - 1) / d) x :=
+    (((hasDerivAt_const x a).add ((hasDerivAt_pow 2 x).div_const b)).add
+      ((hasDerivAt_pow 4 x).div_const c)).add ((hasDerivAt_pow 6 x).div_const d)
+  exact h.congr_deriv (by norm_num)
+
+lemma eventually_series_branch {x₀ : ℝ} (h : |x₀| < 0.5) : ∀ᶠ x in 𝓝 x₀, BR x = seriesR x := by
+  have ho : IsOpen {x : ℝ | |x| < 0.5} := isOpen_lt continuous_abs continuous_const
+  filter_upwards [ho.mem_nhds h] with x hx
+  exact bintgs_series_branch (le_of_lt hx)
+
+/-- derivative of every column inside the series regime (`|x₀| < 0.5`) -/
+theorem bintgs_series_hasDerivAt {x₀ : ℝ} (h : |x₀| < 0.5) :
+    HasDerivAt (fun x => (BR x).c0) (2 * x₀ / 3 + 4 * x₀ ^ 3 / 60 + 6 * x₀ ^ 5 / 2520) x₀ ∧
+    HasDerivAt (fun x => (BR x).c1) (-2 / 3 - 3 * x₀ ^ 2 / 15 - 5 * x₀ ^ 4 / 420) x₀ ∧
+    HasDerivAt (fun x => (BR x).c2) (2 * x₀ / 5 + 4 * x₀ ^ 3 / 84 + 6 * x₀ ^ 5 / 3240) x₀ ∧
+    HasDerivAt (fun x => (BR x).c3) (-2 / 5 - 3 * x₀ ^ 2 / 21 - 5 * x₀ ^ 4 / 540) x₀ ∧
+    HasDerivAt (fun x => (BR x).c4) (2 * x₀ / 7 + 4 * x₀ ^ 3 / 108 + 6 * x₀ ^ 5 / 3960) x₀ ∧
+    HasDerivAt (fun x => (BR x).c5) (-2 / 7 - 3 * x₀ ^ 2 / 27 - 5 * x₀ ^ 4 / 660) x₀ ∧
+    HasDerivAt (fun x => (BR x).c6) (2 * x₀ / 9 + 4 * x₀ ^ 3 / 132 + 6 * x₀ ^ 5 / 4680) x₀ := by
+  have ev := eventually_series_branch h
+  refine ⟨?_, ?_, ?_, ?_, ?_, ?_, ?_⟩
+  · exact (hasDerivAt_evenPoly 2 3 60 2520 x₀).congr_of_eventuallyEq (ev.mono fun x hx => by simp only [hx, seriesR])
+  · exact (hasDerivAt_oddPoly (-2 / 3) 15 420 x₀).congr_of_eventuallyEq (ev.mono fun x hx => by simp only [hx, seriesR])
+  · exact (hasDerivAt_evenPoly (2 / 3) 5 84 3240 x₀).congr_of_eventuallyEq (ev.mono fun x hx => by simp only [hx, seriesR])
+  · exact (hasDerivAt_oddPoly (-2 / 5) 21 540 x₀).congr_of_eventuallyEq (ev.mono fun x hx => by simp only [hx, seriesR])
+  · exact (hasDerivAt_evenPoly (2 / 5) 7 108 3960 x₀).congr_of_eventuallyEq (ev.mono fun x hx => by simp only [hx, seriesR])
+  · exact (hasDerivAt_oddPoly (-2 / 7) 27 660 x₀).congr_of_eventuallyEq (ev.mono fun x hx => by simp only [hx, seriesR])
+  · exact (hasDerivAt_evenPoly (2 / 7) 9 132 4680 x₀).congr_of_eventuallyEq (ev.mono fun x hx => by simp only [hx, seriesR])
+
+example : |(0:ℝ)| < 0.5 ∧ |(-0.2:ℝ)| < 0.5 := by
+  rw [abs_zero, abs_of_neg (by norm_num)]; norm_num
+
+/-- REPAIRED (F27): at `x = 0` (equal exponents, `beta = 0`) the odd columns `b2, b4, b6` have the slope
+    `B_k'(0) = −∫₋₁^¹ η^{k+1} dη = −2/(k+2)` of the integrals, the even columns have slope `0` -/
+theorem bintgs_odd_slope_at_zero :
+    HasDerivAt (fun x => (BR x).c1) (-2 / 3) 0 ∧
+    HasDerivAt (fun x => (BR x).c3) (-2 / 5) 0 ∧
+    HasDerivAt (fun x => (BR x).c5) (-2 / 7) 0 ∧
+    HasDerivAt (fun x => (BR x).c0) 0 0 ∧
+    HasDerivAt (fun x => (BR x).c2) 0 0 ∧
+    HasDerivAt (fun x => (BR x).c4) 0 0 ∧
+    HasDerivAt (fun x => (BR x).c6) 0 0 := by
+  obtain ⟨d0, d1, d2, d3, d4, d5, d6⟩ := bintgs_series_hasDerivAt (x₀ := 0) (by norm_num)
+  refine ⟨?_, ?_, ?_, ?_, ?_, ?_, ?_⟩
+  · convert d1 using 1; norm_num
+  · convert d3 using 1; norm_num
+  · convert d5 using 1; norm_num
+  · convert d0 using 1; norm_num
+  · convert d2 using 1; norm_num
+  · convert d4 using 1; norm_num
+  · convert d6 using 1; norm_num
+
+/-- `bintgs` as it was BEFORE the repair (three regimes: recursion, series for `1e-6 < |x| ≤ 0.5`,
+    the constants `B_k(0)` for `|x| ≤ 1e-6`) -/
+def bintgsOld (x : ℝ) : Aux ℝ :=
+  if 0.5 < |x| then BR x else if 1.0e-6 < |x| then seriesR x else ⟨2, 0, 2 / 3, 0, 2 / 5, 0, 2 / 7⟩
+
+/-- the repair changed nothing outside the window `|x| ≤ 1e-6` … -/
+theorem bintgsOld_eq_outside_window {x : ℝ} (h : 1.0e-6 < |x|) : bintgsOld x = BR x := by
+  unfold bintgsOld
+  by_cases h0 : 0.5 < |x|
+  · rw [if_pos h0]
+  · rw [if_neg h0, if_pos h, bintgs_series_branch (not_lt.mp h0)]
+
+/-- … and nothing AT `x = 0` as far as values go … -/
+theorem bintgsOld_zero : bintgsOld 0 = BR 0 := by
+  rw [bintgs_series_branch (by norm_num)]
+  simp only [bintgsOld, seriesR, abs_zero]
+  norm_num
+
+/-- … but (DEFECT F27, repaired) the removed branch is locally constant at `0`: every column of the old
+    function has derivative `0` there, so the odd columns lost the slope `−2/(k+2)` (`0 ≠ −2/3`): for equal
+    exponents the `B`-part of `d(overlap)/dR` was dropped by autograd. -/
+theorem old_branch_dropped_slope :
+    HasDerivAt (fun x => (bintgsOld x).c1) 0 0 ∧
+    HasDerivAt (fun x => (bintgsOld x).c3) 0 0 ∧
+    HasDerivAt (fun x => (bintgsOld x).c5) 0 0 ∧
+    ¬ HasDerivAt (fun x => (bintgsOld x).c1) (-2 / 3) 0 ∧
+    ¬ HasDerivAt (fun x => (bintgsOld x).c3) (-2 / 5) 0 ∧
+    ¬ HasDerivAt (fun x => (bintgsOld x).c5) (-2 / 7) 0 := by
+  have ev : ∀ᶠ x in 𝓝 (0:ℝ), bintgsOld x = ⟨2, 0, 2 / 3, 0, 2 / 5, 0, 2 / 7⟩ := by
+    filter_upwards [Metric.ball_mem_nhds (0:ℝ) (by norm_num : (0:ℝ) < 1.0e-6)] with x hx
+    rw [Metric.mem_ball, Real.dist_eq, sub_zero] at hx
+    have h1 : ¬ (1.0e-6 < |x|) := not_lt.mpr hx.le
+    have h0 : ¬ (0.5 < |x|) := fun h => h1 (lt_trans (by norm_num) h)
+    rw [bintgsOld, if_neg h0, if_neg h1]
+  have d1 : HasDerivAt (fun x => (bintgsOld x).c1) 0 0 :=
+    (hasDerivAt_const (0:ℝ) (0:ℝ)).congr_of_eventuallyEq (ev.mono fun x hx => by simp only [hx])
+  have d3 : HasDerivAt (fun x => (bintgsOld x).c3) 0 0 :=
+    (hasDerivAt_const (0:ℝ) (0:ℝ)).congr_of_eventuallyEq (ev.mono fun x hx => by simp only [hx])
+  have d5 : HasDerivAt (fun x => (bintgsOld x).c5) 0 0 :=
+    (hasDerivAt_const (0:ℝ) (0:ℝ)).congr_of_eventuallyEq (ev.mono fun x hx => by simp only [hx])
+  refine ⟨d1, d3, d5, fun h => ?_, fun h => ?_, fun h => ?_⟩
+  · have := d1.unique h; norm_num at this
+  · have := d3.unique h; norm_num at this
+  · have := d5.unique h; norm_num at this
+
+end slope
 
 /-! ## 3. equal exponents: the closed forms
 
-`beta = 0`, so the `B` tables are the `x = 0` values.  The right-hand sides were obtained independently
+`beta = 0`, so the `B` tables are the series branch evaluated at `x = 0` (`bintgs_at_zero`).  The right-hand sides were obtained independently
 (symbolic integration of the normalised STO products in prolate spheroidal coordinates with sympy, checked
 against the quadrature oracle `vf/oracle_nddo.py` to 3e-14); orbitals on both centres oriented along common
 axes, centre j at `+R` on the local z axis (`diFactors` convention), `p = ζR`. -/
